@@ -88,6 +88,11 @@ def replay(pid, corpus_mod, path):
         from ..ch import runner
 
         return runner.replay_violation(path)
+    if "template" not in payload:
+        # clause-level witness (rejection / acceptance clause, evaluated on the real library):
+        # the clause is deterministic, re-running the check reproduces it
+        print(f"clause-level witness {rec.get('key')}: {rec.get('what')}; re-run ./check {pid} to reproduce", json.dumps(payload)[:300])
+        return 1
     mod = importlib.import_module(corpus_mod)
     tps = {t.name: t for t in mod.templates(Cfg.for_tier("thorough"))}
     tps.update({t.name: t for t in mod.templates(Cfg.for_tier("quick"))})
